@@ -568,6 +568,81 @@ func runHammer(ts []string) string {
 	return "ok"
 }
 
+// runBurst: `burst <prefix items> / p ; p … / <probe items>` — per round `copies` independent stores
+// all run the sequential prefix (one shared sleep per `sl`), then on each store the callers are
+// released together by one flag, then the probe runs sequentially. Returns the distinct outcomes
+// `<prefix answers> / <thread answers ; …> / <probe answers>` (sorted).
+func runBurst(pre []item, progs [][]item, suf []item, copies, rounds int) []string {
+	seen := map[string]bool{}
+	for r := 0; r < rounds; r++ {
+		stores := make([]*memory.Storage, copies)
+		preObs := make([][]string, copies)
+		valid := make([]bool, copies)
+		for j := range stores {
+			stores[j] = memory.New(context.Background())
+			valid[j] = true
+		}
+		// prefix, segment by segment
+		for i := 0; i <= len(pre); {
+			k := i
+			for k < len(pre) && pre[k].op != "sl" {
+				k++
+			}
+			for j, st := range stores {
+				t0 := time.Now()
+				for _, it := range pre[i:k] {
+					preObs[j] = append(preObs[j], doCall(st, it))
+				}
+				if time.Since(t0) > time.Millisecond {
+					valid[j] = false // a stalled segment could outlive a 2 ms lifetime set in it
+				}
+			}
+			if k < len(pre) {
+				time.Sleep(ttlOf(pre[k].args[0]))
+			}
+			i = k + 1
+		}
+		for j, st := range stores {
+			if valid[j] {
+				var start int32
+				var wg sync.WaitGroup
+				res := make([][]string, len(progs))
+				for i := range progs {
+					wg.Add(1)
+					go func(i int) {
+						defer wg.Done()
+						out := make([]string, 0, len(progs[i]))
+						for atomic.LoadInt32(&start) == 0 {
+						}
+						for _, it := range progs[i] {
+							out = append(out, doCall(st, it))
+						}
+						res[i] = out
+					}(i)
+				}
+				time.Sleep(10 * time.Microsecond)
+				atomic.StoreInt32(&start, 1)
+				wg.Wait()
+				var sufObs []string
+				for _, it := range suf {
+					sufObs = append(sufObs, doCall(st, it))
+				}
+				seen[strings.Join(preObs[j], " ")+" / "+renderThreads(res)+" / "+strings.Join(sufObs, " ")] = true
+			}
+			st.Close()
+		}
+	}
+	var outs []string
+	for o := range seen {
+		outs = append(outs, o)
+	}
+	sort.Strings(outs)
+	if len(outs) == 0 {
+		return []string{"timing-invalid"}
+	}
+	return outs
+}
+
 // runSweep: `sweep call|tick <keys> <writers> <rounds>` — the real CleanupExpired (called in a
 // loop, or driven by StartCleanup's ticker) against concurrent re-writes of many expired keys.
 // Round: write <keys> keys with a 2 ms lifetime, wait 6 ms (all expired), release the writers and
@@ -753,6 +828,22 @@ func execLine(line string, rounds int) []string {
 		return []string{runHammer(ts[1:])}
 	case "sweep":
 		return []string{runSweep(ts[1:])}
+	case "burst":
+		parts := splitTok(ts[1:], "/")
+		if len(parts) != 3 {
+			return []string{"bad-case"}
+		}
+		pre, e1 := parseItems(parts[0])
+		progs, e2 := parseProgs(parts[1])
+		suf, e3 := parseItems(parts[2])
+		if e1 != nil || e2 != nil || e3 != nil {
+			return []string{"bad-case"}
+		}
+		copies, br := 16, 2
+		if rounds > 1000 { // thorough
+			br = 12
+		}
+		return runBurst(pre, progs, callsOf(suf), copies, br)
 	}
 	return []string{"bad-case"}
 }
@@ -810,7 +901,7 @@ func modeOf(line string) string {
 		return "mem"
 	case "red":
 		return "red"
-	case "sched", "conc", "hammer", "sweep":
+	case "sched", "conc", "hammer", "sweep", "burst":
 		return "conc"
 	}
 	return ""
@@ -892,7 +983,7 @@ func main() {
 	results := make([][]string, len(lines))
 	workers := 16
 	if *mode == "conc" {
-		workers = 4
+		workers = 5
 	}
 	if *mode == "mem" {
 		workers = 48 // sleep-bound; a burst that is delayed beyond burstMax is rerun
@@ -911,7 +1002,7 @@ func main() {
 				_, c := splitKey(lines[i])
 				done := make(chan []string, 1)
 				go func() {
-					if *mode == "conc" && !strings.HasPrefix(c, "sched") {
+					if *mode == "conc" && !strings.HasPrefix(c, "sched") && !strings.HasPrefix(c, "burst") {
 						done <- execChild(c, concRounds)
 					} else {
 						done <- execLine(c, concRounds)
